@@ -126,8 +126,14 @@ func (in *instance) feed(sb *simBlock, between func()) (captured []capturedTx, p
 			in.dead = true
 		}
 	}()
-	in.best = sb.blk.Height
-	in.bc.VerifDposstateSetBest(sb.blk.Height, sb.blk.Timestamp)
+	if in.initReplay && in.replayTip != nil {
+		// BlockChain.InitCheckpoint replays while the chain database already holds the whole chain
+		in.best = in.replayTip.blk.Height
+		in.bc.VerifDposstateSetBest(in.replayTip.blk.Height, in.replayTip.blk.Timestamp)
+	} else {
+		in.best = sb.blk.Height
+		in.bc.VerifDposstateSetBest(sb.blk.Height, sb.blk.Timestamp)
+	}
 	for _, tx := range sb.blk.Transactions {
 		if tx.TxType() == common2.InactiveArbitrators {
 			if err := in.arb.ProcessSpecialTxPayload(tx.Payload(), sb.blk.Height-1); err != nil {
@@ -140,7 +146,7 @@ func (in *instance) feed(sb *simBlock, between func()) (captured []capturedTx, p
 	}
 	isPow := in.arb.State.GetConsensusAlgorithm() == state.POW
 	in.ckp.OnBlockSaved(&types.DposBlock{Block: sb.blk, HaveConfirm: sb.confirm != nil, Confirm: sb.confirm},
-		nil, isPow, in.arb.GetRevertToPOWBlockHeight(), false)
+		nil, isPow, in.arb.GetRevertToPOWBlockHeight(), in.initReplay)
 	captured = in.w.drainCaptured()
 	return
 }
